@@ -149,7 +149,11 @@ fn builder(doc: &Value) -> Value {
                 .or_insert_with(|| Arc::new(LogMw { id: id.to_string(), log: log.clone() }))
                 .clone()
         };
-        let mut b = StoreBuilder::<St, i64>::new(Vec::new());
+        let mut b = if s["start"] == "new_with_reducer" {
+            StoreBuilder::<St, i64>::new_with_reducer(Vec::new(), mk_reducer("r0"))
+        } else {
+            StoreBuilder::<St, i64>::new(Vec::new())
+        };
         for c in s["seq"].as_array().unwrap() {
             let m = c["m"].as_str().unwrap();
             let sarg = c["s"].as_str().unwrap_or("").to_string();
